@@ -894,6 +894,43 @@ def wrap_cases(rng=None):
     return out
 
 
+def fin_wrap_cases():
+    """Deterministic family (always emitted, C13 and C06): the FIN of a graceful close sits on or next to the last
+    sequence number (verif hook set_isn: ISN = 2^32 - k, n bytes written before the shutdown, so the FIN has sequence
+    number 2^32 - k + 1 + n and its acknowledgement is that plus one, mod 2^32 - for n = k - 2 the FIN is 0xFFFFFFFF and
+    its ACK is 0), on the connecting and on the accepting side; with n > k the send window spans the wrap and a
+    data-only ACK arrives while the FIN is outstanding (two MSS-sized segments, the first one acknowledged alone).  Both
+    sides close; everything must be reclaimed and the port can be listened on again (seed C13-A8)."""
+    out = []
+    for (k, n, swap, mss) in [(2, 0, False, 100), (3, 1, False, 100), (10, 8, False, 100), (10, 8, True, 100), (10, 9, False, 100),
+                              (10, 7, True, 100), (50, 48, False, 20), (50, 48, True, 20), (30, 60, False, 40), (30, 60, True, 40)]:
+        cfg = full_cfg({"mtu": 40 + mss, "retx_threshold": 2, "retx_max": 5, "backlog": 4, "send_cap": 4096, "recv_cap": 4096})
+        sc = Script()
+        sc.add(["set_isn", 0, 2 ** 32 - k], ["set_isn", 1, 2 ** 32 - k])
+        ls, cs, as_ = handshake(sc)
+        w, rd = (cs, as_) if not swap else (as_, cs)
+        if n:
+            sc.add(["write", w, pattern(10, 0, n)])
+        sc.add(["shutdown", w])
+        for _ in range(6):
+            sc.add(E, ["flush"], ["read", rd, 70000], ["read", w, 70000])
+        sc.add(["rows", 0], ["rows", 1])
+        sc.add(["shutdown", rd])
+        for _ in range(6):
+            sc.add(E, ["flush"], ["read", rd, 70000], ["read", w, 70000])
+        for h_ in (cs, as_, ls):
+            sc.add(["close", h_], E, ["flush"])
+        for _ in range(6):
+            sc.add(E, ["flush"])
+        sc.add(["counts", 0], ["counts", 1], ["rows", 0], ["rows", 1])
+        fin = sc.slot()
+        sc.add(["listen", fin, 1, 3, 80], ["counts", 1])
+        out.append({"cfg": cfg, "script": sc.s, "flavour": "fin_wrap",
+                    "plan": {"closed_all": True, "settled": True, "port": 80, "final_listen": fin,
+                             "w": w, "r": rd, "both": True, "fair_from": 0, "drops": 0, "ls": ls}})
+    return out
+
+
 def gen_live(rng):
     """Transfer with bounded faults (total drops < retx_max, overtaking by at most a few rounds)
     followed by a long fair phase in which both applications keep pumping and every packet is
